@@ -453,3 +453,23 @@ def check_unchanged(case):
         return Fail("%s at position %r modified its operand %d: %r -> %r" % (g, path, j, b, a),
                     key="input-modified:" + g, observed=a, required=b)
     return None
+
+
+# ---------------------------------------------------------------------------------------------
+# known finding of round 4: hashable labels of one type that cannot be ordered among themselves
+# ---------------------------------------------------------------------------------------------
+def _gen_unorderable(ctx):
+    for g in GATESN:
+        yield {"expr": (g, ("lbl", ('x', 0)), ("lbl", ('x', 1)), ("lbl", (2, 3)))}
+        yield {"expr": (g, ("lbl", (1, 'a')), ("lbl", ('a', 1)))}
+
+
+@clause("C07.labels_unorderable_within_type", "C07", gen=_gen_unorderable, nontrivial=_nontrivial)
+def check_unorderable(case):
+    """Labels are hashable objects of any type; tuples whose elements have different types at the same position
+    (('x', 0) and (2, 3)) are hashable labels of one type that Python cannot order. The gate must still return a
+    model with the right truth table."""
+    try:
+        return _check_truth(case)
+    except TypeError as e:
+        return Fail("the gate raised TypeError: %s" % (str(e)[:120],), key="unorderable-labels-typeerror")
